@@ -84,58 +84,93 @@ fn check_nak_pdu(pdu: &PDU, n: u64, has_md: bool, max_reqs: usize, seg: u16, p: 
     (covers, zero)
 }
 
-fn all_naks_after_eof(k: usize, via_prompt: bool) {
+/// the queued requests are well-formed and cover exactly the missing bytes (probe-point formulation)
+fn check_queue(t: &RecvTransaction<ModelFs>, b: &[u64; 4], k: usize, n: u64, has_md: bool, p: u64) {
+    let q = t.verif_naks();
+    assert!(q.len() <= k + 2, "at most one request per gap plus the metadata marker");
+    let mut covers = false;
+    let mut zero = false;
+    let mut prev_end = 0u64;
+    let mut i = 0;
+    while i < q.len() {
+        let r = &q[i];
+        if r.start_offset == 0 && r.end_offset == 0 {
+            assert!(!has_md && i == 0, "0-0 marker only while metadata is missing, and first");
+            zero = true;
+        } else {
+            assert!(r.start_offset < r.end_offset, "non-empty range");
+            assert!(r.end_offset <= n, "request inside the file");
+            assert!(r.start_offset >= prev_end, "ascending, non-overlapping");
+            prev_end = r.end_offset;
+            if r.start_offset <= p && p < r.end_offset {
+                covers = true;
+            }
+        }
+        i += 1;
+    }
+    assert!(covers == !held(b, k, p), "a byte is requested exactly when it is not held");
+    assert!(zero == !has_md, "metadata requested exactly when missing");
+}
+
+fn all_naks_after_eof(k: usize) {
     let ch = chans();
     let (mut t, b, n, has_md) = after_eof(k, &ch, 64);
     let p: u64 = kani::any();
     kani::assume(p < n);
-    if via_prompt {
-        t.process_pdu(directive(
-            TransmissionMode::Acknowledged,
-            Direction::ToReceiver,
-            Operations::Prompt(PromptPDU { nak_or_keep_alive: NakOrKeepAlive::Nak }),
-        ))
-        .unwrap();
-    } else {
-        // NAK timer expiry: all gaps are queued again
-        verif::set_now(Duration::from_secs(NOW + 5));
-        t.handle_timeout().unwrap();
-    }
+    // NAK timer expiry: all gaps are queued again
+    verif::set_now(Duration::from_secs(NOW + 5));
+    t.handle_timeout().unwrap();
+    check_queue(&t, &b, k, n, has_md, p);
     let complete = has_md && (n == 0 || (k == 1 && b[0] == 0 && b[1] == n));
-    if via_prompt || !complete {
-        assert!(verif::recv_has_pdu_to_send(&t), "something is missing: a NAK is due");
-        let pdu = recv_send(&mut t, &ch);
-        match pdu {
-            Some((dest, pdu)) => {
-                assert!(dest == VariableID::from(SRC_ID), "NAK goes to the sending entity");
-                let (covers, zero) = check_nak_pdu(&pdu, n, has_md, 7, 64, p);
-                assert!(covers == !held(&b, k, p), "a byte is requested exactly when it is not held");
-                assert!(zero == !has_md, "metadata requested exactly when missing");
-                forget(pdu);
-            }
-            None => assert!(false, "NAK PDU expected"),
-        }
-        assert!(t.verif_naks().is_empty(), "k+2 requests fit one PDU");
-    }
+    assert!(verif::recv_has_pdu_to_send(&t) == !complete, "a NAK is due exactly when something is missing");
     kani::cover!(k >= 1 && b[0] > 0, "first segment missing");
     kani::cover!(!has_md, "metadata missing");
+    kani::cover!(complete, "nothing missing");
     forget(t);
     forget(ch);
 }
-//# funcs=RecvTransaction::handle_timeout,get_all_naks,send_naks,has_pdu_to_send,Segments::gaps,NegativeAcknowledgmentPDU::max_nak_num; bound=after EOF (size < 2^32 symbolic), 0 or 1 held segment, metadata present/missing, NAK-timer expiry; stubs=S1,S2,S3
+//# funcs=RecvTransaction::handle_timeout,get_all_naks,has_pdu_to_send,has_naks,Segments::gaps,Segments::is_complete; bound=after EOF (size < 2^32 symbolic), 0 or 1 held segment, metadata present/missing, NAK-timer expiry; stubs=S1,S2,S3
 th!(c08_q_all_naks_timer_k01, 8, {
     if kani::any() {
-        all_naks_after_eof(0, false)
+        all_naks_after_eof(0)
     } else {
-        all_naks_after_eof(1, false)
+        all_naks_after_eof(1)
     }
 });
-//# funcs=RecvTransaction::process_pdu(Prompt),answer_prompt,get_all_naks,send_naks; bound=as above, triggered by a NAK prompt, 1 held segment; stubs=S1,S2,S3
-th!(c08_q_all_naks_prompt_k1, 8, { all_naks_after_eof(1, true) });
-//# funcs=RecvTransaction::handle_timeout,get_all_naks,send_naks,Segments::gaps; bound=after EOF, 2 held segments; stubs=S1,S2,S3
-th!(c08_t_all_naks_timer_k2, 9, { all_naks_after_eof(2, false) });
+//# funcs=RecvTransaction::handle_timeout,get_all_naks,Segments::gaps; bound=after EOF, 2 held segments; stubs=S1,S2,S3
+th!(c08_t_all_naks_timer_k2, 9, { all_naks_after_eof(2) });
 
-//# funcs=RecvTransaction::process_pdu(EoF),check_file_size,check_finished,has_naks,get_all_naks,send_ack_eof,send_naks; bound=EOF arrives with 0 or 1 held segment, deferred procedure delay 0; ACK(EOF) first, then the NAK for exactly the missing bytes; stubs=S1,S2,S3
+//# funcs=RecvTransaction::process_pdu(Prompt),send_pdu,answer_prompt,get_all_naks,send_naks; bound=after EOF, 1 held segment, NAK prompt answered at the next send opportunity; stubs=S1,S2,S3
+th!(c08_q_all_naks_prompt_k1, 8, {
+    let ch = chans();
+    let (mut t, b, n, has_md) = after_eof(1, &ch, 64);
+    let p: u64 = kani::any();
+    kani::assume(p < n);
+    t.process_pdu(directive(
+        TransmissionMode::Acknowledged,
+        Direction::ToReceiver,
+        Operations::Prompt(PromptPDU { nak_or_keep_alive: NakOrKeepAlive::Nak }),
+    ))
+    .unwrap();
+    assert!(verif::recv_has_pdu_to_send(&t), "a prompt is answered");
+    let out = recv_send(&mut t, &ch);
+    match &out {
+        Some((dest, pdu)) => {
+            assert!(*dest == VariableID::from(SRC_ID), "NAK goes to the sending entity");
+            let (covers, zero) = check_nak_pdu(pdu, n, has_md, 7, 64, p);
+            assert!(covers == !held(&b, 1, p), "a byte is requested exactly when it is not held");
+            assert!(zero == !has_md, "metadata requested exactly when missing");
+        }
+        None => assert!(false, "NAK PDU expected"),
+    }
+    forget(out);
+    assert!(t.verif_naks().is_empty(), "3 requests fit one PDU");
+    kani::cover!(b[0] > 0, "first segment missing");
+    forget(t);
+    forget(ch);
+});
+
+//# funcs=RecvTransaction::process_pdu(EoF),check_file_size,check_finished,has_naks,get_all_naks,prepare_ack_eof; bound=EOF arrives with 0 or 1 held segment of an incomplete file, deferred procedure delay 0: ACK(EOF) armed and exactly the missing bytes queued; stubs=S1,S2,S3
 th!(c08_q_eof_then_nak, 8, {
     let ch = chans();
     verif::set_now(Duration::from_secs(NOW));
@@ -158,21 +193,41 @@ th!(c08_q_eof_then_nak, 8, {
     let eof = EndOfFile { condition: Condition::NoError, checksum: kani::any(), file_size: n, fault_location: None };
     t.process_pdu(directive(TransmissionMode::Acknowledged, Direction::ToReceiver, Operations::EoF(eof))).unwrap();
     assert!(t.verif_recv_state() == VRecvState::ReceiveData, "incomplete file is not finalised");
-    match recv_send(&mut t, &ch) {
-        Some((_, PDU { payload: PDUPayload::Directive(Operations::Ack(a)), .. })) => assert!(a.directive == PDUDirective::EoF),
-        _ => assert!(false, "ACK(EOF) first"),
-    }
-    assert!(verif::recv_has_pdu_to_send(&t), "missing bytes: a NAK is due right after EOF (deferred, no delay)");
-    match recv_send(&mut t, &ch) {
-        Some((_, pdu)) => {
-            let (covers, zero) = check_nak_pdu(&pdu, n, true, 7, 64, probe);
-            assert!(covers == !held(&b, k, probe), "a byte is requested exactly when it is not held");
-            assert!(!zero);
-            forget(pdu);
+    assert!(matches!(t.verif_ack(), Some(a) if a.directive == PDUDirective::EoF), "ACK(EOF) armed");
+    check_queue(&t, &b, k, n, true, probe);
+    assert!(!t.verif_naks().is_empty(), "missing bytes: a NAK is due right after EOF (deferred, no delay)");
+    kani::cover!(k == 1 && b[0] > 0 && b[1] == n, "only the first segment is missing");
+    forget(t);
+    forget(ch);
+});
+
+//# funcs=RecvTransaction::send_pdu,send_naks,get_header; bound=queue of 2 symbolic requests (+ 0-0 marker present or not, per instance), file size < 2^32: the NAK PDU is well-formed, scope = first start..last end, requests kept in order; stubs=S1,S2,S3
+th!(c08_q_send_naks_wellformed, 8, {
+    let ch = chans();
+    let (t0, _b, n, _md) = after_eof(0, &ch, 64);
+    let mut p = t0.verif_into_parts();
+    let (a1, e1, a2, e2): (u64, u64, u64, u64) = (kani::any(), kani::any(), kani::any(), kani::any());
+    kani::assume(a1 < e1 && e1 <= a2 && a2 < e2 && e2 <= n);
+    p.metadata = Some(metadata(true, n, false, ChecksumType::Modular, vec![]));
+    p.naks = VecDeque::from(vec![
+        SegmentRequestForm { start_offset: a1, end_offset: e1 },
+        SegmentRequestForm { start_offset: a2, end_offset: e2 },
+    ]);
+    let mut t = RecvTransaction::verif_from_parts(p);
+    let out = recv_send(&mut t, &ch);
+    match &out {
+        Some((dest, pdu)) => {
+            assert!(*dest == VariableID::from(SRC_ID));
+            let _ = check_nak_pdu(pdu, n, true, 7, 64, a1);
+            if let PDUPayload::Directive(Operations::Nak(nk)) = &pdu.payload {
+                assert!(nk.start_of_scope == a1 && nk.end_of_scope == e2, "scope spans the requests");
+                assert!(nk.segment_requests.len() == 2 && nk.segment_requests[0].start_offset == a1 && nk.segment_requests[1].end_offset == e2, "requests kept, in order");
+            }
         }
         None => assert!(false, "NAK expected"),
     }
-    kani::cover!(k == 1 && b[0] > 0 && b[1] == n, "only the first segment is missing");
+    forget(out);
+    kani::cover!(true, "end");
     forget(t);
     forget(ch);
 });
@@ -262,7 +317,8 @@ th!(c08_q_split_over_pdus, 8, {
     let mut sent = 0;
     let mut reqs = 0;
     while verif::recv_has_pdu_to_send(&t) && sent < 3 {
-        match recv_send(&mut t, &ch) {
+        let out5 = recv_send(&mut t, &ch);
+        match &out5 {
             Some((_, pdu)) => {
                 let _ = check_nak_pdu(&pdu, 100, false, 2, 24, 0);
                 if let PDUPayload::Directive(Operations::Nak(nk)) = &pdu.payload {
@@ -272,6 +328,7 @@ th!(c08_q_split_over_pdus, 8, {
             }
             None => assert!(false),
         }
+        forget(out5);
         sent += 1;
     }
     assert!(sent == 2 && reqs == 4, "all queued requests leave, two per PDU");
